@@ -6,6 +6,7 @@ import (
 	"encoding/binary"
 	"encoding/json"
 	"fmt"
+	"regexp"
 	"sort"
 	"strings"
 
@@ -333,7 +334,7 @@ func gzipOf(b []byte) []byte {
 }
 
 func hostileGzip(s *core.Source, tile []byte) ([]byte, string) {
-	switch s.Intn(4, "gzkind") {
+	switch s.Intn(5, "gzkind") {
 	case 0:
 		n := []int{1 << 10, 1 << 16, 1 << 20, 1 << 22}[s.Intn(4, "bomb")]
 		fill := byte([]int{0, 0x1a, 0xff}[s.Intn(3, "fill")])
@@ -344,10 +345,135 @@ func hostileGzip(s *core.Source, tile []byte) ([]byte, string) {
 		return g[:cut], fmt.Sprintf("gzipped tile truncated to %d of %d bytes", cut, len(g))
 	case 2:
 		return gzipOf(gzipOf(tile)), "tile gzipped twice"
-	default:
+	case 3:
 		g := gzipOf(tile)
 		return append(g, g...), "two gzip members"
+	default:
+		// a large (incompressible) stream whose size trailer lies
+		n := []int{33 << 10, 48 << 10, 70 << 10}[s.Intn(3, "bigz")]
+		x := core.NewXoshiro(uint64(n))
+		raw := make([]byte, n)
+		for i := range raw {
+			raw[i] = byte(x.Next())
+		}
+		g := gzipOf(raw)
+		copy(g[len(g)-4:], []byte{0xff, 0xff, 0xff, byte([]int{0xff, 0x7f, 0x3f}[s.Intn(3, "isize")])})
+		return g, fmt.Sprintf("%d KiB gzip stream whose ISIZE trailer claims gigabytes", n>>10)
 	}
+}
+
+// ---- WKT: hostile numbers and foreign prefixes in otherwise valid text
+
+var hostileNumbers = []string{"0.00000000000000000000001", "0.000000000000000000000000000000000001e30", "123456789012345678901234567890", "1e400", "-1e-400", "1e", "1e+", ".", "-", "+1", "-.5", "5.", "0x10", "Inf", "-inf", "NaN", "1_000", "١٢", "1,5", "1e3e3", "00000000000000000000000000000000000000001", "1.7976931348623157e308", "4.9e-324", "9007199254740993"}
+var wktPrefixes = []string{"SRID=4326;", "SRID=4326 ", "SRID=", "srid=0;", "SRID=;", "SRID=x;", ";", "\ufeff", "\x00", "\t\r\n", "\u00a0", "SRID=4326;SRID=4326;"}
+
+var wktNumberRE = regexp.MustCompile(`[-+]?[0-9]*\.?[0-9]+([eE][-+]?[0-9]+)?`)
+
+func hostileWKT(s *core.Source, text string) (string, string) {
+	what := ""
+	if s.Chance(2, 3, "wkt-number") {
+		locs := wktNumberRE.FindAllStringIndex(text, -1)
+		if len(locs) > 0 {
+			l := locs[s.Intn(len(locs), "numpos")]
+			n := hostileNumbers[s.Intn(len(hostileNumbers), "hnum")]
+			text = text[:l[0]] + n + text[l[1]:]
+			what = "number replaced by " + n
+		}
+	}
+	if what == "" || s.Chance(1, 3, "wkt-prefix") {
+		pfx := wktPrefixes[s.Intn(len(wktPrefixes), "pfx")]
+		if s.Bool("inside") && strings.Contains(text, "(") {
+			i := strings.Index(text, "(") + 1
+			text = text[:i] + pfx + text[i:]
+			what += fmt.Sprintf(" %q inserted after the first parenthesis", pfx)
+		} else {
+			text = pfx + text
+			what += fmt.Sprintf(" prefixed with %q", pfx)
+		}
+	}
+	return text, what
+}
+
+// ---- protobuf written by hand: framing stays consistent, field contents are hostile
+
+func pbVarint(v uint64, pad int) []byte {
+	var b []byte
+	for v >= 0x80 {
+		b = append(b, byte(v)|0x80)
+		v >>= 7
+	}
+	b = append(b, byte(v))
+	for i := 0; i < pad; i++ { // over-long encoding: continuation bytes carrying zero bits
+		b[len(b)-1] |= 0x80
+		b = append(b, 0)
+	}
+	return b
+}
+
+func pbField(num, wire int, payload []byte) []byte {
+	return append(pbVarint(uint64(num<<3|wire), 0), payload...)
+}
+
+func pbBytes(num int, payload []byte) []byte {
+	return pbField(num, 2, append(pbVarint(uint64(len(payload)), 0), payload...))
+}
+
+func hostileVarint(s *core.Source) []byte {
+	switch s.Intn(6, "hv") {
+	case 0:
+		return pbVarint(1, 10) // 11 bytes: longer than any valid varint
+	case 1:
+		return bytes.Repeat([]byte{0xff}, 12)
+	case 2:
+		return append(bytes.Repeat([]byte{0xff}, 9), 0x01) // 2^64-1
+	case 3:
+		return append(bytes.Repeat([]byte{0xff}, 9), 0x7f) // overflows 64 bits
+	case 4:
+		return pbVarint(uint64(s.Intn(300, "v")), s.Intn(4, "pad"))
+	default:
+		return []byte{0x80} // continuation bit, then the message ends
+	}
+}
+
+func rawTile(s *core.Source) ([]byte, string) {
+	var feat []byte
+	var what []string
+	s.Repeat(1, 3, 6, "rawfield", func(int) {
+		num := []int{1, 2, 3, 4, 5, 15, 0, 99}[s.Intn(8, "fnum")]
+		switch s.Intn(4, "fwire") {
+		case 0:
+			feat = append(feat, pbField(num, 0, hostileVarint(s))...)
+			what = append(what, fmt.Sprintf("field %d varint", num))
+		case 1:
+			var packed []byte
+			s.Repeat(0, 3, 8, "pk", func(int) { packed = append(packed, hostileVarint(s)...) })
+			feat = append(feat, pbBytes(num, packed)...)
+			what = append(what, fmt.Sprintf("field %d packed", num))
+		case 2:
+			feat = append(feat, pbField(num, []int{1, 5, 3, 4, 6, 7}[s.Intn(6, "wt")], drawRaw(s, s.Intn(9, "n")))...)
+			what = append(what, fmt.Sprintf("field %d odd wire type", num))
+		default:
+			// a length that points beyond the end of the feature
+			feat = append(feat, pbField(num, 2, pbVarint(uint64(s.Intn(1<<20, "len")), 0))...)
+			what = append(what, fmt.Sprintf("field %d length beyond end", num))
+		}
+	})
+	layer := append(pbBytes(1, []byte("l")), pbField(15, 0, pbVarint(2, 0))...)
+	layer = append(layer, pbBytes(3, []byte("k"))...)
+	layer = append(layer, pbBytes(4, pbBytes(1, []byte("v")))...)
+	layer = append(layer, pbBytes(2, feat)...)
+	if s.Bool("twice") {
+		layer = append(layer, pbBytes(2, feat)...)
+	}
+	return pbBytes(3, layer), "hand-written protobuf feature: " + strings.Join(what, ", ")
+}
+
+func drawRaw(s *core.Source, n int) []byte {
+	b := make([]byte, n)
+	for i := range b {
+		b[i] = byte(s.Intn(256, "rb"))
+	}
+	return b
 }
 
 // ---- bulk: inputs with enough REAL data to get past the first length check
@@ -458,10 +584,25 @@ func RunHostile(t *core.T) {
 		var data []byte
 		var what string
 		fam := famMVT
-		switch s.Pick([]int{4, 3, 3, 2, 1, 1}, "hkind") {
+		switch s.Pick([]int{4, 3, 3, 2, 1, 1, 2, 2}, "hkind") {
 		case 5:
 			fam, data, what = bulk(s)
 			t.Fault("bulk_input")
+		case 6:
+			b, ok := store(t, famWKT)
+			if !ok {
+				return
+			}
+			fam = famWKT
+			txt, w := hostileWKT(s, string(b.data))
+			data, what = []byte(txt), "wkt: "+w
+			t.Fault("wkt_hostile_number_or_prefix")
+		case 7:
+			data, what = rawTile(s)
+			if s.Chance(1, 5, "gz") {
+				data, what = gzipOf(data), what+" (gzipped)"
+			}
+			t.Fault("raw_protobuf")
 		case 0:
 			data, what = hostileTile(s)
 			if data != nil && s.Chance(1, 4, "gz") {
